@@ -15,11 +15,15 @@ import (
 
 var c07alpha = []string{startM, endM, "\xc3\x97", "\n", "a", "\xe2", "\x80", "\xb9", "\xba"}
 
+// c07extra: symbols that neither operation may alter, for the sampled strings (the replacement character itself,
+// runes of every encoded length, the escape character, bytes that are invalid on their own).
+var c07extra = []string{"\ufffd", "é", "日", "\U0001f600", "?", " ", "\xff", "\xc3", "\xef\xbf", "\r", "\x00"}
+
 func init() {
 	register("C07", &monitor{
 		run: runC07,
 		rule: "all strings over {start marker, end marker, cross, LF, 'a', E2, 80, B9, BA} up to the length bound (exhaustive), " +
-			"random strings over the same alphabet up to 48 symbols, and outputs produced by the library for random print calls and builder histories; " +
+			"random strings over the same alphabet (plus U+FFFD, runes of every encoded length, '?', invalid bytes) up to 48 symbols and a few of 200-2200, and outputs produced by the library for random print calls and builder histories; " +
 			"a case is non-trivial when the string contains at least one marker token; distinct = distinct strings (hash bitmap, conservative)",
 	})
 }
@@ -103,6 +107,20 @@ func runC07(c *Ctx) {
 	if got := string(redact.RedactableString(startM + "x" + endM).Redact()); got != string(redact.RedactedMarker()) {
 		c.Violate("C07 marker-constants", "Redact of one envelope gives "+q(got)+", RedactedMarker() is "+q(string(redact.RedactedMarker())), nil)
 	}
+	// The slices handed out by the accessors are the caller's: writing into them must not reach the markers the
+	// library itself works with.
+	for _, acc := range []func() []byte{redact.StartMarker, redact.EndMarker, redact.RedactedMarker} {
+		b := acc()
+		for i := range b {
+			b[i] = 'X'
+		}
+	}
+	if string(redact.StartMarker()) != startM || string(redact.EndMarker()) != endM || string(redact.RedactedMarker()) != redactedM ||
+		string(redact.RedactableBytes(startM+"a"+endM).Redact()) != redactedM || string(redact.RedactableString(startM+"a"+endM).Redact()) != redactedM ||
+		string(redact.Sprint("x"+startM+"y"+endM)) != startM+"x?y?"+endM || string(redact.RedactableBytes("k"+startM+"a"+endM).StripMarkers()) != "ka" {
+		c.Violate("C07 marker-accessor-aliasing", "after a caller overwrote the slices returned by StartMarker/EndMarker/RedactedMarker the library's own markers changed: Sprint(\"x‹y›\")="+
+			q(string(redact.Sprint("x"+startM+"y"+endM)))+" RedactableBytes(\"‹a›\").Redact()="+q(string(redact.RedactableBytes(startM+"a"+endM).Redact())), nil)
+	}
 	maxLen := int(c.pick(6, 9))
 	k := int64(len(c07alpha))
 	// Exhaustive part.
@@ -148,6 +166,9 @@ func runC07(c *Ctx) {
 		open := false
 		for j := 0; j < n; j++ {
 			a := c07alpha[r.Intn(len(c07alpha))]
+			if r.Chance(1, 5) {
+				a = c07extra[r.Intn(len(c07extra))] // text the two operations must pass through untouched
+			}
 			if wf {
 				if a == startM && open {
 					a = endM
